@@ -235,6 +235,55 @@ def views_inert_failures(r, n):
     return fails
 
 
+# Pattern cells of a legacy merchant_categories.csv that the legacy loop hands to the expression evaluator and that cannot be evaluated for
+# the item at hand (a column only another source has, wrong types, an unknown name) - their text is, read as a regular expression, valid
+# (`(UBER|LYFT) and x`), invalid (an unbalanced parenthesis inside a string literal) or something else again
+LEGACY_BAD = ['contains(field.memo, "INV(")', 'field.nope == "x"', 'contains(5)', 'amount > "x"', 'regex("(") and amount > 0', 'contains(field.memo, "a[")',
+              'startswith(field.kind, "*X")', 'anyof(field.a, field.b)', 'field.memo == "(" or contains("++")', 'len(amount) > 0', 'nosuchvar and contains("UBER")',
+              'contains(description, 5, "(")', 'normalized(field.memo, "?(")', 'fuzzy(field.memo, "[")', 'amount > nosuch(']
+
+
+def legacy_oracle(r, n):
+    """A legacy CSV rule that cannot be evaluated for the item is skipped like any other failing rule: `normalize_merchant` completes and
+    answers what it answers for the file without the failing rows (and through parse_generic_csv every row of the statement comes back)."""
+    import shutil
+    import tempfile
+    from tally import merchant_utils as MU, parsers, format_parser
+    fails = []
+    d = tempfile.mkdtemp(prefix='tvc08l_')
+    try:
+        for i in range(n):
+            txn = GR.gen_txn(r)
+            good = GR.gen_csv_rules(r, txn, n=r.choice([1, 2, 3]), expression_like=False)
+            bad = [(b, f'Bad{j}', 'BadCat', '', '') for j, b in enumerate(r.sample(LEGACY_BAD, r.choice([1, 2, 3])))]
+            rows = list(good)
+            for b in bad:
+                rows.insert(r.randint(0, len(rows)), b)
+            outs = []
+            for k, rs in enumerate((rows, good)):
+                path = os.path.join(d, f'm{k}.csv')
+                with open(path, 'w', encoding='utf-8', newline='') as fh:
+                    fh.write(GR.render_csv_rules(rs))
+                MU.clear_engine_cache()
+                try:
+                    rules = MU.get_all_rules(path)
+                    t = RC.txn_for_engine(txn)
+                    m, c, s_, info = MU.normalize_merchant(t['description'], rules, amount=t.get('amount'), txn_date=t.get('date'), field=copy.deepcopy(t.get('field')),
+                                                           data_source=t.get('source'), location=t.get('location'), data_sources=ROWS)
+                    outs.append((m, c, s_, sorted((info or {}).get('tags', []))))
+                except Exception as e:
+                    outs.append(('raised', type(e).__name__, str(e)[:120]))
+                finally:
+                    MU.clear_engine_cache()
+            if outs[0] != outs[1] and not (outs[1][0] == 'raised'):
+                fails.append({'class': 'classification-aborts' if outs[0][0] == 'raised' else 'failing-rule-not-inert', 'site': 'legacy csv rules',
+                              'csv': GR.render_csv_rules(rows), 'txn': RC.jtxn(txn), 'observed': list(outs[0]), 'required (the failing rows deleted)': list(outs[1])})
+                break
+    finally:
+        shutil.rmtree(d, ignore_errors=True)
+    return fails
+
+
 def cli_oracle(r):
     from . import c17
     bad = r.choice(BAD_MATCH)
@@ -377,6 +426,8 @@ def run(ctx):
         prop_fail.extend(csv_oracle(r))
     if not ctx.replay:
         prop_fail.extend(views_inert_failures(r, 60 if ctx.quick else 2000))
+    if not ctx.replay:
+        prop_fail.extend(legacy_oracle(r, 60 if ctx.quick else 2500))
     ncli = 0 if ctx.replay else (3 if ctx.quick else 25)
     for _ in range(ncli):
         prop_fail.extend(cli_oracle(r))
